@@ -10,7 +10,7 @@
 //   ser <id> <coinbits> <hex> ...        all C09 checks; continuation with the given updates   -> IMG <kind> <hex> | <content> | <checks> | <info>
 //   pfx <id>                             every strict prefix, bytes and stream paths (forked)  -> PFX <kind> <hex> | bytes=<codes> stream=<codes> | <details>
 //   cor <id> [o1,o2,...]                 the given byte offsets (default: first 64) x 8 replacements, both paths (forked) -> COR <kind> <hex> | ofs=<o1,...> bytes=<codes> stream=<codes> | <details>
-//   img <id>                                                                                 -> IMG <kind> <hex> | <content>
+//   img <id>                                                                                 -> IMG <kind> <hex> | <content> | ok | <info>
 //   deser <kind> <hex>                   deserialize an external image on both paths           -> CONTENT <content> | throw
 // outcome codes: t throw, a accepted with the reference content, d accepted with other content, e accepted but a getter threw,
 //   A asan, U ubsan, T timeout, C alloc_cap (single allocation > 256 MiB), L leak after the call, S other crash,
@@ -150,6 +150,14 @@ template<class F, class T> std::string content(const typename F::SK& s, uint64_t
     if (first) o << "none";
   }
   if (wsum) *wsum = ws;
+  return o.str();
+}
+
+// observables that do not depend on the coin flips
+template<class F, class T> std::string observables(const typename F::SK& s) {
+  std::ostringstream o;
+  o << s.get_n() << " " << s.get_k() << " " << s.is_estimation_mode() << " " << s.get_num_retained() << F::hra(s);
+  if (!s.is_empty()) o << " " << It<T>::hex(s.get_min_item()) << " " << It<T>::hex(s.get_max_item());
   return o.str();
 }
 
@@ -365,6 +373,7 @@ template<class F, class T> struct SkImpl : ISk {
       for (auto& v : vals) b.update(It<T>::from(v));
       const std::string ca = content<F, T>(a), cb = content<F, T>(b);
       if (ca != cb) fail("continue-updates-diverge");
+      if (observables<F, T>(a) != observables<F, T>(b)) fail("continue-observables-diverge");
       if (a.get_n() != sk.get_n() + vals.size()) fail("continue-n-wrong");
       install(coins);
       SK m = F::make(k, hra);
@@ -372,6 +381,7 @@ template<class F, class T> struct SkImpl : ISk {
       install(coins); a.merge(m);
       install(coins); b.merge(m);
       if (content<F, T>(a) != content<F, T>(b)) fail("continue-merge-diverges");
+      if (observables<F, T>(a) != observables<F, T>(b)) fail("continue-merge-observables-diverge");
       // restored as the merge *source*
       install(coins); SK t1 = F::make(k, hra); for (auto& v : vals) t1.update(It<T>::from(v));
       SK t2(t1);
@@ -408,7 +418,10 @@ template<class F, class T> struct SkImpl : ISk {
 
   std::string img() override {
     const std::string im = image();
-    return "IMG " + kind() + " " + vh::hex_of_bytes(reinterpret_cast<const uint8_t*>(im.data()), im.size()) + " | " + content<F, T>(sk);
+    uint64_t wsum = 0;
+    const std::string c = content<F, T>(sk, &wsum);
+    return "IMG " + kind() + " " + vh::hex_of_bytes(reinterpret_cast<const uint8_t*>(im.data()), im.size()) + " | " + c + " | ok | size=" +
+      std::to_string(im.size()) + " wsum=" + std::to_string(wsum) + " n=" + std::to_string(sk.get_n());
   }
 
   // offsets: the byte positions to corrupt (chosen by the spec from the Lean field map: all structural bytes);
